@@ -42,6 +42,11 @@ var (
 	ErrGetVarpInvalidDtype         = errors.New("getVarp: invalid data type")
 )
 
+// hasBytes reports whether buf holds n more bytes at offset off.
+func hasBytes(buf []byte, off uint32, n uint32) bool {
+	return uint64(off)+uint64(n) <= uint64(len(buf))
+}
+
 func ReadSegStats(segkey string, qid uint64) (map[string]*structs.SegStats, error) {
 
 	retVal := make(map[string]*structs.SegStats)
@@ -77,9 +82,15 @@ func ReadSegStats(segkey string, qid uint64) (map[string]*structs.SegStats, erro
 	for rIdx < uint32(len(fdata)) {
 
 		// cnamelen
+		if !hasBytes(fdata, rIdx, 2) {
+			return retVal, fmt.Errorf("qid=%d, ReadSegStats: truncated sst file: %v", qid, fName)
+		}
 		cnamelen := utils.BytesToUint16LittleEndian(fdata[rIdx : rIdx+2])
 		rIdx += 2
 		// actual cname
+		if !hasBytes(fdata, rIdx, uint32(cnamelen)) {
+			return retVal, fmt.Errorf("qid=%d, ReadSegStats: truncated sst file: %v", qid, fName)
+		}
 		cname := string(fdata[rIdx : rIdx+uint32(cnamelen)])
 		rIdx += uint32(cnamelen)
 
@@ -88,9 +99,15 @@ func ReadSegStats(segkey string, qid uint64) (map[string]*structs.SegStats, erro
 
 		switch version {
 		case sutils.VERSION_SEGSTATS[0]:
+			if !hasBytes(fdata, rIdx, 4) {
+				return retVal, fmt.Errorf("qid=%d, ReadSegStats: truncated sst file: %v", qid, fName)
+			}
 			sstlen = utils.BytesToUint32LittleEndian(fdata[rIdx : rIdx+4])
 			rIdx += 4
 		case sutils.VERSION_SEGSTATS_LEGACY[0]:
+			if !hasBytes(fdata, rIdx, 2) {
+				return retVal, fmt.Errorf("qid=%d, ReadSegStats: truncated sst file: %v", qid, fName)
+			}
 			sstlen = uint32(utils.BytesToUint16LittleEndian(fdata[rIdx : rIdx+2]))
 			rIdx += 2
 		default:
@@ -99,6 +116,9 @@ func ReadSegStats(segkey string, qid uint64) (map[string]*structs.SegStats, erro
 		}
 
 		// actual sst
+		if !hasBytes(fdata, rIdx, sstlen) {
+			return retVal, fmt.Errorf("qid=%d, ReadSegStats: truncated sst file: %v, cname: %v", qid, fName, cname)
+		}
 		sst, err := readSingleSst(fdata[rIdx:rIdx+sstlen], qid)
 		if err != nil {
 			return retVal, fmt.Errorf("qid=%d, ReadSegStats: error reading single sst for cname: %v, err: %v",
@@ -115,6 +135,11 @@ func readSingleSst(fdata []byte, qid uint64) (*structs.SegStats, error) {
 	sst := structs.SegStats{}
 
 	idx := uint32(0)
+
+	// version (1), isNumeric (1), count (8), hll size (4)
+	if !hasBytes(fdata, idx, 14) {
+		return nil, fmt.Errorf("qid=%d, readSingleSst: sst entry of %v bytes is too short", qid, len(fdata))
+	}
 
 	// read version
 	version := fdata[idx]
@@ -138,6 +163,9 @@ func readSingleSst(fdata []byte, qid uint64) (*structs.SegStats, error) {
 		return nil, fmt.Errorf("qid=%d, readSingleSst: unknown version: %v", qid, version)
 	}
 
+	if !hasBytes(fdata, idx, hllSize) {
+		return nil, fmt.Errorf("qid=%d, readSingleSst: hll of %v bytes does not fit the sst entry", qid, hllSize)
+	}
 	err := sst.CreateHllFromBytes(fdata[idx : idx+hllSize])
 	if err != nil {
 		return nil, fmt.Errorf("qid=%d, readSingleSst: unable to create Hll from raw bytes. sst err: %v", qid, err)
@@ -146,7 +174,10 @@ func readSingleSst(fdata []byte, qid uint64) (*structs.SegStats, error) {
 	idx += hllSize
 
 	if sst.IsNumeric {
-		readNumericStats(&sst, fdata, idx)
+		err = readNumericStats(&sst, fdata, idx)
+		if err != nil {
+			return nil, fmt.Errorf("readSingleSst: error reading numeric stats: %v", err)
+		}
 		return &sst, nil
 	}
 
@@ -158,7 +189,11 @@ func readSingleSst(fdata []byte, qid uint64) (*structs.SegStats, error) {
 	return &sst, nil
 }
 
-func readNumericStats(sst *structs.SegStats, fdata []byte, idx uint32) {
+func readNumericStats(sst *structs.SegStats, fdata []byte, idx uint32) error {
+	// min, max, sum (1 + 8 each), numeric count (8)
+	if !hasBytes(fdata, idx, 35) {
+		return fmt.Errorf("readNumericStats: sst entry is too short")
+	}
 	sst.NumStats = &structs.NumericStats{}
 
 	min := sutils.CValueEnclosure{}
@@ -199,9 +234,13 @@ func readNumericStats(sst *structs.SegStats, fdata []byte, idx uint32) {
 
 	// read NumericCount
 	sst.NumStats.NumericCount = utils.BytesToUint64LittleEndian(fdata[idx : idx+8])
+	return nil
 }
 
 func readNonNumericStats(sst *structs.SegStats, fdata []byte, idx uint32) error {
+	if !hasBytes(fdata, idx, 1) {
+		return fmt.Errorf("readNonNumericStats: sst entry is too short")
+	}
 	dType := sutils.SS_DTYPE(fdata[idx : idx+1][0])
 	idx += 1
 	// dType can only be string or backfill
@@ -216,10 +255,16 @@ func readNonNumericStats(sst *structs.SegStats, fdata []byte, idx uint32) error 
 		Dtype: sutils.SS_DT_STRING,
 	}
 	// read Min length
+	if !hasBytes(fdata, idx, 2) {
+		return fmt.Errorf("readNonNumericStats: sst entry is too short")
+	}
 	minlen := utils.BytesToUint16LittleEndian(fdata[idx : idx+2])
 	idx += 2
 
 	// read Min string
+	if !hasBytes(fdata, idx, uint32(minlen)) {
+		return fmt.Errorf("readNonNumericStats: min of %v bytes does not fit the sst entry", minlen)
+	}
 	min.CVal = string(fdata[idx : idx+uint32(minlen)])
 	sst.Min = min
 	idx += uint32(minlen)
@@ -229,10 +274,16 @@ func readNonNumericStats(sst *structs.SegStats, fdata []byte, idx uint32) error 
 	}
 
 	// read Max length
+	if !hasBytes(fdata, idx, 2) {
+		return fmt.Errorf("readNonNumericStats: sst entry is too short")
+	}
 	maxlen := utils.BytesToUint16LittleEndian(fdata[idx : idx+2])
 	idx += 2
 
 	// read Max string
+	if !hasBytes(fdata, idx, uint32(maxlen)) {
+		return fmt.Errorf("readNonNumericStats: max of %v bytes does not fit the sst entry", maxlen)
+	}
 	max.CVal = string(fdata[idx : idx+uint32(maxlen)])
 	sst.Max = max
 
